@@ -168,8 +168,18 @@ class MeshPolicy(BasePolicy):
             e = path_of(expr.right)
             if base_ok and e in (POLL_E, SRCH_E):
                 return _pow(e)
+            if base_ok and isinstance(expr.right, ast.Name):
+                # multiplier ** n with n a local: coherent with an exponent once n is known to equal it
+                n_ = expr.right.id
+                out = {f"POWN:{n_}"}
+                for ex in (POLL_E, SRCH_E):
+                    if f"EQ:{ex}" in state.get(n_, EMPTY):
+                        out |= _pow(ex)
+                return frozenset(out)
             return EMPTY
         if canon(expr) in MULT:
+            return frozenset({"MULT"})
+        if isinstance(expr, ast.Call) and call_name(expr) in ("float",) and expr.args and canon(expr.args[0]) in MULT:
             return frozenset({"MULT"})
         if isinstance(expr, ast.Constant) and isinstance(expr.value, bool):
             return frozenset({f"B:{expr.value}"})
@@ -213,6 +223,19 @@ class MeshPolicy(BasePolicy):
                     p = path_of(x)
                     if p in (POLL_E, SRCH_E):
                         self._kill(state, p)
+                        v_ = getattr(s, "value", None)
+                        if isinstance(s, ast.Assign) and isinstance(v_, ast.Name):
+                            # E = n: from here on n equals E, and every power of n computed before is the power of E
+                            n_ = v_.id
+                            state[n_] = state.get(n_, EMPTY) | {f"EQ:{p}"}
+                            for k_ in list(state):
+                                if f"POWN:{n_}" in state[k_]:
+                                    state[k_] = state[k_] | _pow(p)
+                    if isinstance(x, ast.Name) and not isinstance(x, ast.Attribute):
+                        # a re-bound local no longer equals what was computed from it
+                        for k_ in list(state):
+                            if f"POWN:{x.id}" in state[k_] and k_ != x.id:
+                                state[k_] = state[k_] - {f"POWN:{x.id}"}
                     if isinstance(x, ast.Name) and x.id in self.flags:
                         for sl in SLOTS:
                             state[sl] = frozenset(t for t in state.get(sl, EMPTY) if not (t.startswith("CIF:") and t.endswith(":" + x.id)))
@@ -235,6 +258,9 @@ class MeshPolicy(BasePolicy):
         return self._norm(state)
 
     def _kill(self, state, e):
+        for k_ in list(state):
+            if f"EQ:{e}" in state[k_]:
+                state[k_] = state[k_] - {f"EQ:{e}"}
         tag = f"POW:{e}"
         # conditional coherence survives for a flag that is known to be false here
         dead = {f"CIF:{e}:{f}" for f in self.flags if "B:False" not in state.get(f, EMPTY)}
